@@ -39,8 +39,9 @@ Definition judge (t : tree) : option (list Z) :=
   | L [L (A kind :: a :: b :: rest); o] =>
     olet a := tlist tZ a in olet b := tlist tZ b in
     if (kind =? 10) || (kind =? 11) then judge_long kind rest o else
-    let two_point := (kind <? 3) || (kind =? 8) in
-    if (kind <? 6) || (kind =? 8) || (kind =? 9) then
+    (* 12 / 13: byte genes, 14 / 15: string genes through the generic vector impls *)
+    let two_point := (kind <? 3) || (kind =? 8) || (kind =? 12) || (kind =? 14) in
+    if (kind <? 6) || (kind =? 8) || (kind =? 9) || ((12 <=? kind) && (kind <=? 15)) then
       let sup := if two_point then two_point_support a b else uniform_support a b in
       let coverage := match rest with [_; _; A 1] => true | _ => false end in
       match sup, o with
